@@ -53,7 +53,7 @@ def jobs(tier, seed):
             for dv in (1, 2):
                 bss = range(1, S + 2) if dv == 1 else (1, 2, 64)
                 if tier == "quick" and S == 4:
-                    bss = (1, 3) if dv == 1 else (2,)
+                    bss = (1, 3) if dv == 1 else (1, 2)   # bs=1 on 2 devices: two real batches on the second device
                 for bs in bss:
                     off = (S + bs) % 2
                     out.append(dict(name=f"gs-S{S}-bs{bs}-dev{dv}-off{off}-perm{'fixed' if perm is None else ''.join(map(str, perm))}",
